@@ -1,16 +1,16 @@
 package c20
 
 import (
-	"math/rand"
-	"strings"
-	"time"
-	ucfg "github.com/elastic/go-ucfg"
-	"verif/internal/harness"
 	"fmt"
+	ucfg "github.com/elastic/go-ucfg"
+	"math/rand"
 	"os"
 	"sort"
 	"strconv"
+	"strings"
 	"testing"
+	"time"
+	"verif/internal/harness"
 )
 
 func TestGroups(t *testing.T) {
@@ -67,7 +67,7 @@ func TestStringTiming(t *testing.T) {
 	for idx := 5000; idx < 5100; idx++ {
 		res := harness.NewR(idx)
 		r := rand.New(rand.NewSource(harness.Mix(1, "C20", idx)))
-		w := &world{res: res, r: r, tier: tier, poss: tierPositions(tier), p: "p", q: "q", val: 1, capTop: 1100, capInterior: 1100, sigSeen: map[string]int{}}
+		w := &world{res: res, r: r, tier: tier, poss: tierPositions(tier), p: "p", q: "q", val: 1, capTop: 1024, capInterior: 1024, sigSeen: map[string]int{}}
 		w.arm(1 << 17)
 		ucfg.VerifSetHook(w.hook)
 		var strs []string
